@@ -18,7 +18,7 @@ from typing import Any
 
 from vmc import bootstrap
 
-bootstrap.setup(("llama_agents.server",))
+bootstrap.setup(("llama_agents.server", "llama_agents.dbos"))
 
 import logging  # noqa: E402
 
@@ -193,7 +193,65 @@ def work_fault(case: Any) -> Any:
     return 1, 1, [(c, w, dd, None) for c, w, dd in v], None, 3
 
 
+FULL_SOURCES = [("server", M._MIGRATIONS_PKG), ("dbos", "llama_agents.dbos._store.sqlite.migrations")]
+
+
+def work_multi(case: Any) -> Any:
+    """the DBOS runtime migrates with two sources, [server, dbos], on databases that a server-only deployment (or an older
+    version) has already brought to some server version"""
+    start, _tag, server_only_first = case
+    d = tempfile.mkdtemp(prefix="vmc-c28m-")
+    v: list[Any] = []
+    try:
+        rp = os.path.join(d, "refm.db")
+        c = sqlite3.connect(rp)
+        M.run_migrations(c, sources=FULL_SOURCES)
+        c.commit()
+        ref = (schema(c), versions(c))
+        c.close()
+        path = os.path.join(d, "t.db")
+        build_start(path, tuple(start))
+        w = {"start": start[0], "sources": "server+dbos", "server_only_run_first": server_only_first}
+        desc = f"start={start} sources=[server, dbos] server-only run first={server_only_first}"
+        if server_only_first:
+            c = sqlite3.connect(path)
+            M.run_migrations(c)
+            c.commit()
+            c.close()
+        prev = None
+        for i in range(2):
+            c = sqlite3.connect(path)
+            try:
+                M.run_migrations(c, sources=FULL_SOURCES)
+                c.commit()
+            except Exception as e:  # noqa: BLE001
+                v.append(("migration_run_fails", {**w, "run": "first" if i == 0 else "repeat"}, f"{desc}: run {i + 1} raised {type(e).__name__}: {e}"))
+                c.close()
+                break
+            c.close()
+            oc = sqlite3.connect(path)
+            got = (schema(oc), versions(oc))
+            oc.close()
+            if got[0] != ref[0]:
+                missing = [x[1] for x in ref[0]["master"] if x not in got[0]["master"]]
+                v.append(("final_schema_differs_from_fresh", w, f"{desc}: after run {i + 1} missing {missing[:6]}"))
+                break
+            if got[1] != ref[1]:
+                v.append(("versions_not_recorded_once", {**w, "run": "first" if i == 0 else "repeat"},
+                          f"{desc}: after run {i + 1} schema_migrations holds {got[1]}, expected {ref[1]}"))
+                break
+            if prev is not None and got != prev:
+                v.append(("repeat_run_changes_something", w, f"{desc}: run {i + 1} changed the database"))
+                break
+            prev = got
+    finally:
+        shutil.rmtree(d, ignore_errors=True)
+    return 1, 1, [(c_, w_, dd, None) for c_, w_, dd in v], None, 2
+
+
 def work(case: Any) -> Any:
+    if len(case) == 3 and case[1] == "multi":
+        return work_multi(case)
     if len(case) == 3:
         return work_fault(case)
     start, runs, commit, reuse = case
@@ -259,6 +317,7 @@ RULE = ("every starting schema {fresh; schema_migrations recorded up to k = 1..N
 "pre-existing data row, observed through a separate connection after every run, compared with a freshly migrated database; "
         "plus, for every starting schema, one run in which the f-th schema-changing operation is refused by an SQLite "
         "authorizer (f = 1 .. number of such operations in a fresh run + 1): the abandoned file must sit at a version boundary and the following runs must converge; "
+        "plus every starting schema migrated with the two sources [server, dbos] (directly, and after a server-only run); "
         "non-trivial = non-fresh start or repeated run")
 
 
@@ -288,6 +347,8 @@ def run(tier: str, seed: int) -> Any:
     # fault injection: every schema-changing operation of every starting point refused once (positions beyond the last
     # operation of a run are vacuous and counted as trivial)
     cases += [(s, "fault", f) for s in starts for f in range(1, _schema_ops_of_fresh_run() + 2)]
+    # two migration sources (what the DBOS runtime passes), also after a server-only run brought the server part up to date
+    cases += [(s, "multi", first) for s in starts for first in (False, True)]
     return run_grid(PID, RULE, cases, work, seed=seed, chunksize=2, assumptions=[
         "an 'earlier schema' is what the repository's own migration files produce up to version k (with or without the bookkeeping table)",
         "single process, no concurrent migrator"], extra={"migrations": n, "starts": len(starts)})
